@@ -524,8 +524,16 @@ package mcp
 //@   assert at call yield: @the-item-yielded-is-the-next-of-the-page $1 == nil ==> $0 == lastResult(pageItems, 0)[calls(yield) - pageStart]
 // The cursor codec decodes into a fresh local token (gob/base64 are library code): nothing that existed before the
 // call is written. Assumed, not verified.
-//@ func decodeCursor
-//@   trusted
+//@ func decodeCursor [C17]
+//@   track DecodeString as unbase64
+//@   track Decode as ungob
+//@   modifies fields(pageToken.LastUID)   // the gob decoder fills the fresh token
+// (what callers need of the frame is assumed where they use it; what is verified here: the codec is the only judge
+// of a cursor - the whole cursor goes to the base64 decoder and its whole output to the gob decoder, and a cursor is
+// refused only when one of the two refuses it. With the library codec inverse to encodeCursor (assumed), every cursor
+// the server issued is therefore accepted, whatever its length.)
+//@   ensures @the-whole-cursor-is-decoded calls(unbase64) == 1 && callArg(unbase64, 1, 1) == cursor
+//@   ensures @a-cursor-is-refused-only-by-the-codec result.1 != nil ==> callResult(unbase64, 1, 1) != nil || (calls(ungob) == 1 && callResult(ungob, 1, 0) != nil)
 //@   ensures result.1 == nil ==> result.0 != nil
 //@   ensures result.1 != nil ==> result.0 == nil
 //@ func encodeCursor
